@@ -112,9 +112,7 @@ def fold_block(name, stmts, extra_env=None):
 
 
 WRITER_SITES = [
-    ("diplotype::write_decomposition", "carried"),
-    ("diplotype::write_vcf", "carried"),
-    ("solutions::SolvedAllele.mutations", "return"),
+    ("solutions::SolvedAllele.mutations", "return"),   # the two file writers are decided by folding them whole (R5, R6 and the lost-variant scenario)
 ]
 
 
@@ -170,7 +168,7 @@ def r1(repo, res):
                     n_sites += 1
                     res.ob("C12.R1", f, g.iter, got >= SPEC, expected="a superset of core|minor|added - lost",
                            found=describe(got), clause="every carried variant has a VCF record", key="vcf-table-keys")
-    res.floor("C12.R1", "carried-set sites", n_sites, 2)
+    res.floor("C12.R1", "carried-set sites", n_sites, 1)
     # exempt display-only site: listed
     g = repo.func("solutions::MinorSolution.get_mutation_coverages")
     res.analysed(g)
@@ -408,6 +406,23 @@ def r5(repo, res):
     res.ob("C12.R5", f, f, k != "raise" and got2 == want2 and set(gene.alleles["1"].minors["1.002"].neutral_muts) == {S1},
            expected="copies of the same minor allele are written independently: gains and losses of one copy do not show on the next",
            found=str(got2), clause="per allele copy, exactly the variants that copy is reported to carry", key="decomposition-repeated-minor")
+    # edge copies: every variant of the definition lost (one empty row, the copy does not vanish); a variant both gained and lost (not carried)
+    rows.clear()
+    edge = Obj(solution=[Obj(major="1", minor="1.002", added=[], missing=[S1]), Obj(major="3", minor="3.001", added=[AD], missing=[AD, S2])],
+               get_major_diplotype=lambda: "*1 / *3")
+    try:
+        k, v = Evaluator(dict(known, sol_id=9, minor=edge), funcs={"print": pr}).run(
+            [s_ for s_ in f.body if not (isinstance(s_, ast.Expr) and isinstance(s_.value, ast.Constant))])
+    except (Unfoldable, Raised) as e:
+        res.err("C12.R5", f"write_decomposition outside the folding language: {e}")
+        return
+    got3 = {}
+    for c in [r.split("\t") for r in rows]:
+        got3.setdefault(c[5], []).append((c[7], c[8]))
+    want3 = {"0": [("", "")], "1": [("250", "C>T")]}
+    res.ob("C12.R5", f, f, k != "raise" and got3 == want3,
+           expected="a copy that lost every variant of its definition keeps one empty row; a variant both gained and lost is not carried (definition plus additions minus losses)",
+           found=str(got3), clause="copies without variants get one empty row", key="decomposition-edge-copies")
 
 
 def r6(repo, res):
@@ -490,6 +505,10 @@ def r6(repo, res):
            expected="two solutions with two and three copies (known finding C12.R2 set aside: cells read as independent): column i carries the genotype, MA and MI of solution i's own copies",
            found="agrees" if okm else f"{cols}; header {headm[-2:]}",
            clause="the genotype of allele copy i at a variant is 1 exactly if that copy is reported to carry the variant", key="vcf-records:two-solutions")
+    lost = lambda: Rec(major="3", minor="3.001", added=[], missing=[S2])  # noqa  a copy reported as *3.001 without S2
+    scenarios.append(("a copy that lost a variant of its definition", [A1(), lost()],
+                      [["22", "151", "rs2", "T", "A", "1|0", "12", "*1,-", "*1.002,-"],
+                       ["22", "251", "rs1", "C", "T", "0|1", "11", "-,*3", "-,*3.001"]]))
     for label, sol, want in scenarios:
         out = []
 
@@ -517,12 +536,15 @@ def r6(repo, res):
                 val = dict(zip(fmt, r[9].split(":")))
                 got.append(r[:5] + [val.get("GT"), val.get("DP"), val.get("MA"), val.get("MI")])
         ok = k != "raise" and got == want and len(head) == 10 and head[:2] == ["#CHROM", "POS"] and head[9].startswith("S:0:")
-        res.ob("C12.R6", f, f, ok,
+        is_lost = label.startswith("a copy that lost")
+        # the recorded finding is exactly "the lost variant is still written as carried by that copy"; anything else is a new failure
+        known_shape = is_lost and got == want + [["22", "351", "-", "G", "A", "0|1", "0", "-,*3", "-,*3.001"]]
+        res.ob("C12.R1" if is_lost else "C12.R6", f, f, ok,
                expected=f"{label}: one record per carried variant in position order: CHROM, one-based POS, dbSNP id, REF, ALT, and per solution GT / DP / MA / MI "
                         "naming exactly the carrying copies; one sample column per solution",
                found=f"{len(want)} records agree" if ok else f"{got}; header {head[-2:]}",
                clause="the genotype of allele copy i at a variant is 1 exactly if that copy is reported to carry the variant; the MA/MI fields name exactly the carrying copies",
-               key=f"vcf-records:substitutions:{label}")
+               key="carried-set:write_vcf" if (is_lost and (ok or known_shape)) else f"vcf-records:substitutions:{label}")
 
 
 def _parents(n):
@@ -551,13 +573,13 @@ def run(repo, res):
 
 
 MUTANTS = [
-    dict(name="R1 decomposition forgets losses", module="diplotype", expect="C12.R1",
+    dict(name="R1 decomposition forgets losses", module="diplotype", expect="C12.R5",
          old="        mutations |= set(a.added)\n        mutations -= set(a.missing)\n        items = []",
          new="        mutations |= set(a.added)\n        items = []"),
-    dict(name="R1 decomposition forgets additions", module="diplotype", expect="C12.R1",
+    dict(name="R1 decomposition forgets additions", module="diplotype", expect="C12.R5",
          old="        mutations |= set(a.added)\n        mutations -= set(a.missing)\n        items = []",
          new="        mutations -= set(a.missing)\n        items = []"),
-    dict(name="R1 decomposition subtracts before adding (added&lost reappears)", module="diplotype", expect="C12.R1",
+    dict(name="R1 decomposition subtracts before adding (added&lost reappears)", module="diplotype", expect="C12.R5",
          old="        mutations |= set(a.added)\n        mutations -= set(a.missing)\n        items = []",
          new="        mutations -= set(a.missing)\n        mutations |= set(a.added)\n        items = []"),
     dict(name="R1 accessor drops minor-only variants", module="solutions", expect="C12.R1",
